@@ -73,6 +73,9 @@ func (p *pg) genCrash(profile string) (Config, Plan) {
 	if (profile == "C01" || profile == "C02" || profile == "C04") && p.r.Intn(16) == 0 {
 		return c, p.bigBatches(&c)
 	}
+	if profile == "C04" && p.r.Intn(4) == 0 {
+		return c, p.truncationChains(&c)
+	}
 	if profile != "C02" && profile != "C09" && p.r.Intn(25) == 0 {
 		// the real metadb.BoltMetaDB + bbolt (on tmpfs) behind the seam wrapper:
 		// every MetaStore call is still a yield / crash point
@@ -216,5 +219,75 @@ func (p *pg) bigBatches(c *Config) Plan {
 		}
 	}
 	plan.Ops = append(plan.Ops, small())
+	return plan
+}
+
+// truncationChains (C04): two-crash chains around a truncation, the histories in
+// which a truncation's durability depends on what an EARLIER recovery or a torn
+// seal left behind. Random single crashes reach them about once in 20 000 runs;
+// the skeleton is fixed here, sizes / positions / fault placement are drawn.
+//
+//	recover-then-truncate: appends; an append killed (process crash, page cache
+//	  survives) between its write and its fsync; recovery shows the batch; a head
+//	  truncation reaching into the recovered batch (commits only metadata); power
+//	  loss before anything else is written; reopen.
+//	torn-seal: appends; a tail truncation (ForceSeal: index + commit frame, then
+//	  the metadata commit) hit by a power loss inside its writes; appends that
+//	  re-use the truncated indexes; a second crash; reopen.
+func (p *pg) truncationChains(c *Config) Plan {
+	c.SegSize = []int{512, 1024, 4096, 4096}[p.r.Intn(4)]
+	c.Granule = []int{8, 8, 64, 512}[p.r.Intn(4)]
+	c.Strict = false
+	c.Meta = "sim"
+	var plan Plan
+	small := func(n int) OpSpec {
+		op := OpSpec{Kind: "append", N: n}
+		for i := 0; i < n; i++ {
+			op.Sizes = append(op.Sizes, []int{8, 16, 40, 100}[p.r.Intn(4)])
+			op.Ext = append(op.Ext, 0)
+		}
+		return op
+	}
+	pre := 0
+	for i := 1 + p.r.Intn(3); i > 0; i-- {
+		n := 1 + p.r.Intn(4)
+		pre += n
+		plan.Ops = append(plan.Ops, small(n))
+	}
+	if p.r.Intn(2) == 0 {
+		// recover-then-truncate
+		n := 2 + p.r.Intn(5)
+		killed := small(n)
+		killed.Fault = &FaultSpec{Class: "crash", Target: "Sync", K: 0, When: "before"}
+		if p.r.Intn(4) == 0 {
+			killed.Fault.When = "mid"
+		}
+		plan.Ops = append(plan.Ops, killed)
+		del := OpSpec{Kind: "delhead", K: pre + 1 + p.r.Intn(n-1), Var: p.r.Intn(3)}
+		if p.r.Intn(4) == 0 {
+			del.K = 1 + p.r.Intn(pre+n)
+		}
+		plan.Ops = append(plan.Ops, del)
+		next := small(1 + p.r.Intn(2))
+		next.Fault = &FaultSpec{Class: "power", Target: []string{"WriteAt", "", "Sync"}[p.r.Intn(3)], K: 0, When: "before"}
+		plan.Ops = append(plan.Ops, next, small(1))
+		return plan
+	}
+	// torn-seal
+	del := OpSpec{Kind: "deltail", K: 1 + p.r.Intn(3), Var: p.r.Intn(3)}
+	del.Fault = &FaultSpec{Class: "power", Target: []string{"WriteAt", "Sync", "", "CommitState"}[p.r.Intn(4)], K: p.r.Pick([]int{60, 30, 10}), When: []string{"before", "after", "mid", "mid"}[p.r.Intn(4)]}
+	plan.Ops = append(plan.Ops, del)
+	for i := 1 + p.r.Intn(2); i > 0; i-- {
+		plan.Ops = append(plan.Ops, small(1+p.r.Intn(3)))
+	}
+	if p.r.Intn(2) == 0 {
+		again := small(1 + p.r.Intn(2))
+		again.Fault = p.crashFault(7, 3)
+		plan.Ops = append(plan.Ops, again)
+	}
+	if p.r.Intn(2) == 0 {
+		plan.Ops = append(plan.Ops, p.deleteOp([]string{"deltail", "delhead"}[p.r.Intn(2)]))
+	}
+	plan.Ops = append(plan.Ops, small(1), OpSpec{Kind: "reopen"})
 	return plan
 }
